@@ -331,3 +331,46 @@ def run(repo: Repo, chk: Check) -> None:
     want = [['b58', 'branch'], ['content', 'c0'], ['content', 'c1']]
     chk.ob('R-TEMPLATE', fg.qualname, got == [want], 'branch + contents in order', fg.loc, {'emitted': got, 'reference': want},
            what='an operation group is not forged as branch followed by its contents in order')
+    # ---- 6 the content handed to the forger can be read more than once --------------------------------------------------------------------
+    # A group is forged several times (forge(), then sign()/hash()/binary_payload() forge it again, and derived groups share the content
+    # dictionaries), so every value a content builder stores must give the same reading each time: no one-shot iterator (map, filter, zip,
+    # iter, reversed, a generator expression) may be stored in a content dictionary.
+    chk.set_clause('C06.6')
+    import ast as _ast
+    ONE_SHOT = {'map', 'filter', 'zip', 'iter', 'reversed', 'enumerate'}
+    cm = repo.cls('pytezos.operation.content.ContentMixin')
+    nvals = 0
+    for fi in cm.methods.values():
+        assigns = {}
+        for n in _ast.walk(fi.node):
+            if isinstance(n, _ast.Assign) and len(n.targets) == 1 and isinstance(n.targets[0], _ast.Name):
+                assigns.setdefault(n.targets[0].id, []).append(n.value)
+
+        def lazy(e, depth=0):
+            if isinstance(e, _ast.GeneratorExp):
+                return 'a generator expression'
+            if isinstance(e, _ast.Call) and isinstance(e.func, _ast.Name) and e.func.id in ONE_SHOT:
+                return f'the one-shot iterator {e.func.id}(...)'
+            if isinstance(e, _ast.IfExp):
+                return lazy(e.body, depth) or lazy(e.orelse, depth)
+            if isinstance(e, _ast.Name) and depth < 3:
+                for v in assigns.get(e.id, []):
+                    r = lazy(v, depth + 1)
+                    if r:
+                        return r
+            return None
+
+        for d in [n for n in _ast.walk(fi.node) if isinstance(n, _ast.Dict)]:
+            for k, v in zip(d.keys, d.values):
+                if k is None:
+                    continue
+                nvals += 1
+                why = lazy(v)
+                key = k.value if isinstance(k, _ast.Constant) else _ast.unparse(k)
+                if why:
+                    chk.ob('R-OWNER', fi.qualname, False, f'field {key!r} holds a value that can be read again', f'{fi.module.relpath}:{v.lineno}',
+                           {'value': _ast.unparse(v)[:100]},
+                           what=f'{fi.qualname} stores {why} under {key!r} in the operation content: the first forge consumes it, every later forge of the '
+                                'same content (sign, hash, binary_payload, a derived group) encodes an empty field, so the signed bytes differ from the forged ones')
+    chk.ob('R-OWNER', cm.qualname, True, f'{nvals} content fields hold re-readable values (no one-shot iterator)', cm.loc)
+    chk.minimum('content dictionary fields', nvals, 90)
